@@ -211,6 +211,21 @@ template<typename E> static void run(const std::string& mech, size_t n, long k, 
 		}
 		cleanup_case(); return;
 	}
+	else if (mech == "setcnt")
+	{
+		size_t cap = 0, newc = 0; extra >> cap >> newc;
+		typedef momo::Array<E, AMM, momo::ArrayItemTraits<E, AMM>, momo::ArraySettings<0, false>> Arr;
+		{
+			E* arg = lives<E>(7, 1);
+			Arr a = Arr::CreateCap(cap, AMM());
+			for (size_t j = 0; j < n; ++j) a.AddBackNogrowVar(int64_t(100 + j));
+			begin_case(k);
+			try { a.SetCount(newc, static_cast<const E&>(*arg)); }
+			catch (...) { outcome = "Exn"; }
+			print_case<E>(outcome);
+		}
+		cleanup_case(); return;
+	}
 	else if (mech == "copyctor")
 	{
 		typedef momo::Array<E, AMM, momo::ArrayItemTraits<E, AMM>, momo::ArraySettings<0, false>> Arr;
@@ -510,6 +525,46 @@ template<typename E> static void run_bucketadd(size_t n, long k)
 	cleanup_case();
 }
 
+// ---- HashSet::pvAddGrow, first insertion into a set without buckets (table + BucketParams + item block) -----------------
+struct PlainHash { template<typename T> size_t operator()(const T& t) const { return size_t(**reinterpret_cast<int64_t* const*>(&t)); } };
+struct PlainEq { template<typename A, typename B> bool operator()(const A& a, const B& b) const { return **reinterpret_cast<int64_t* const*>(&a) == **reinterpret_cast<int64_t* const*>(&b); } };
+template<typename E> static void run_hashfirst(long k)
+{
+	typedef momo::HashTraitsStd<E, PlainHash, PlainEq, momo::HashBucketLimP4<4, momo::MemPoolParams<1, 0>>> HT;
+	typedef momo::HashSet<E, HT, AMM> Set;
+	const char* outcome = "Ok";
+	{
+		E* arg = lives<E>(7, 1);            // region 0
+		Set set{ HT(), AMM() };
+		begin_case(k);
+		try { set.Insert(static_cast<const E&>(*arg)); }
+		catch (...) { outcome = "Exn"; }
+		W().disarm(); W().elogging = false;
+		std::map<uint64_t, const void*> addr_of;
+		for (auto& kv : W().slot_of) addr_of[kv.second] = kv.first;
+		std::string out = W().errors.empty() ? std::string(outcome) : ("Stuck(" + W().errors[0] + ")"), evs, blocks;
+		for (auto& e : W().elog)
+		{
+			std::string s;
+			switch (e.kind)
+			{
+			case 'A': s = "A" + std::to_string(e.b); break;
+			case 'D': s = "D" + std::to_string(e.b); break;
+			case 'C': s = "C" + locname<E>(addr_of[e.b]) + ">" + locname<E>(addr_of[e.a]); break;
+			case 'M': s = "M" + locname<E>(addr_of[e.b]) + ">" + locname<E>(addr_of[e.a]); break;
+			case 'X': s = "X" + locname<E>(addr_of[e.a]); break;
+			case 'F': s = "F"; break;
+			default: continue;
+			}
+			if (!evs.empty()) evs += " ";
+			evs += s;
+		}
+		for (auto& r : g_regs) { if (!blocks.empty()) blocks += " "; blocks += "b" + std::to_string(r.id) + (r.live ? "+" : "-"); }
+		printf("%s | %s | %s\n", out.c_str(), evs.c_str(), blocks.c_str());
+	}
+	cleanup_case();
+}
+
 int main()
 {
 	g_arena = static_cast<char*>(std::malloc(ARENA));
@@ -518,6 +573,11 @@ int main()
 	{
 		std::istringstream is(line); std::string mech, cat; size_t n = 0; long k = -1;
 		is >> mech >> cat >> n >> k;
+		if (mech == "hashfirst")
+		{
+			if (cat == "N") run_hashfirst<kit::ElemNtm>(k); else if (cat == "C") run_hashfirst<kit::ElemCpo>(k); else if (cat == "T") run_hashfirst<kit::ElemThm>(k); else puts("?");
+			fflush(stdout); continue;
+		}
 		if (mech == "bucketadd")
 		{
 			if (cat == "N") run_bucketadd<kit::ElemNtm>(n, k); else if (cat == "C") run_bucketadd<kit::ElemCpo>(n, k); else if (cat == "T") run_bucketadd<kit::ElemThm>(n, k); else puts("?");
